@@ -31,15 +31,20 @@ namespace c16
   // bdeg = per-variable (hypercube) resp. total (simplex) polynomial degree of the basis functions in
   // reference coordinates - used only to choose a cubature degree that is entitled to be exact.
   // ------------------------------------------------------------------------------------------------
-  struct SL1 { template<typename T> using S = Space::Lagrange1::Element<T>; static const char* name() { return "lagrange1"; } static constexpr int p = 1; static int bdeg(bool) { return 1; } static constexpr bool tensor = true, nonaffine_ok = true; };
-  struct SL2 { template<typename T> using S = Space::Lagrange2::Element<T>; static const char* name() { return "lagrange2"; } static constexpr int p = 2; static int bdeg(bool) { return 2; } static constexpr bool tensor = true, nonaffine_ok = true; };
-  struct SL3 { template<typename T> using S = Space::Lagrange3::Element<T>; static const char* name() { return "lagrange3"; } static constexpr int p = 3; static int bdeg(bool) { return 3; } static constexpr bool tensor = true, nonaffine_ok = true; };
-  struct SD0 { template<typename T> using S = Space::Discontinuous::Element<T, Space::Discontinuous::Variant::StdPolyP<0>>; static const char* name() { return "discontinuous0"; } static constexpr int p = 0; static int bdeg(bool) { return 0; } static constexpr bool tensor = false, nonaffine_ok = true; };
+  struct SL1 { template<typename T> using S = Space::Lagrange1::Element<T>; static const char* name() { return "lagrange1"; } static constexpr int p = 1; static int bdeg(bool) { return 1; } static constexpr bool tensor = true, nonaffine_ok = true, has_grad = true; static bool parametric(bool) { return true; } };
+  struct SL2 { template<typename T> using S = Space::Lagrange2::Element<T>; static const char* name() { return "lagrange2"; } static constexpr int p = 2; static int bdeg(bool) { return 2; } static constexpr bool tensor = true, nonaffine_ok = true, has_grad = true; static bool parametric(bool) { return true; } };
+  struct SL3 { template<typename T> using S = Space::Lagrange3::Element<T>; static const char* name() { return "lagrange3"; } static constexpr int p = 3; static int bdeg(bool) { return 3; } static constexpr bool tensor = true, nonaffine_ok = true, has_grad = true; static bool parametric(bool) { return true; } };
+  struct SD0 { template<typename T> using S = Space::Discontinuous::Element<T, Space::Discontinuous::Variant::StdPolyP<0>>; static const char* name() { return "discontinuous0"; } static constexpr int p = 0; static int bdeg(bool) { return 0; } static constexpr bool tensor = false, nonaffine_ok = true, has_grad = false; static bool parametric(bool) { return true; } };
   // parametric P1: span{1,xi,eta}; contains P1(x) only on affine cells
-  struct SD1 { template<typename T> using S = Space::Discontinuous::Element<T, Space::Discontinuous::Variant::StdPolyP<1>>; static const char* name() { return "discontinuous1"; } static constexpr int p = 1; static int bdeg(bool) { return 1; } static constexpr bool tensor = false, nonaffine_ok = false; };
+  struct SD1 { template<typename T> using S = Space::Discontinuous::Element<T, Space::Discontinuous::Variant::StdPolyP<1>>; static const char* name() { return "discontinuous1"; } static constexpr int p = 1; static int bdeg(bool) { return 1; } static constexpr bool tensor = false, nonaffine_ok = false, has_grad = true; static bool parametric(bool simplex) { return simplex; } };
   // Crouzeix-Raviart (simplex, P1) / Rannacher-Turek (hypercube, non-parametric rotated Q1: {1,x,y,x^2-y^2} in a cell frame)
-  struct SCR { template<typename T> using S = Space::CroRavRanTur::Element<T>; static const char* name() { return "crorav_rantur"; } static constexpr int p = 1; static int bdeg(bool simplex) { return simplex ? 1 : 2; } static constexpr bool tensor = false, nonaffine_ok = true; };
+  struct SCR { template<typename T> using S = Space::CroRavRanTur::Element<T>; static const char* name() { return "crorav_rantur"; } static constexpr int p = 1; static int bdeg(bool simplex) { return simplex ? 1 : 2; } static constexpr bool tensor = false, nonaffine_ok = true, has_grad = true; static bool parametric(bool simplex) { return simplex; } };
 
+  // Domain facts (implicit preconditions, learned from XABORTM / documentation, not defects):
+  //  * Discontinuous<StdPolyP<0>> has eval_caps = value only: requesting gradients aborts by contract
+  //    ("space evaluator does not support basis function gradients") => has_grad = false, gradient operators are not generated on that side.
+  //  * LaplaceBeltramiOperator "can only be used in conjunction with parametric finite element spaces" (needs ref_grad);
+  //    Discontinuous P1 and Rannacher-Turek on hypercubes are non-parametric evaluators => parametric(simplex).
   // ------------------------------------------------------------------------------------------------
   // dense views built from the raw arrays
   // ------------------------------------------------------------------------------------------------
